@@ -253,12 +253,24 @@ def oracleC14 (c : Case) : Option (List String) :=
                   && closeQ τ r.u (x.b * c0.2.2 + x.d * c1.2.2))
             else [])
   | "bdeduce_sym" =>
-    -- both sides call deduce on well-formed operands of the open domain (negation and 1 - ay are exact on dyadic operands
-    -- and correctly rounded on decimal ones)
+    -- both sides call deduce on well-formed operands of the open domain.  The second call receives the NEGATED rate
+    -- (`1 - a` for swap_x, `1 - ay` for swap_y) as computed in the format: exact on dyadic operands, correctly rounded
+    -- otherwise, i.e. off by up to eps/2 ABSOLUTELY -- for a rate far below 1 that is a large relative perturbation of the
+    -- rate the swapped call recovers as `1 - (1 - a)` (a < eps/2 is lost altogether: `1 - a` rounds to 1; false alarm on
+    -- x.a = 1.4e-8, ay = 1.3e-8 in f32 seen in a 10-seed sweep).  K is linear in a / ay resp. (1-a) / (1-ay), so a
+    -- perturbation delta of a rate moves the result by at most delta / min(ay, 1-ay): that much is added to the tolerance
+    -- unless the negation is exact (then the two calls receive the same numbers and the tight tolerance applies).
     withV fun out =>
       let l := qbAt out 0
       let r := qbAt out 4
-      check (if c.ints.getD 0 0 == 0 then "C14.swap_x" else "C14.swap_y") (QB.close (64 * τ) l r)
+      let swapX := c.ints.getD 0 0 == 0
+      let p : Nat := match c.fmt with | .f64 => 53 | .f32 => 24
+      let emin : Nat := match c.fmt with | .f64 => 1074 | .f32 => 149
+      let representable (q : Rat) : Bool :=
+        (q.den &&& (q.den - 1)) == 0 && decide (q.num.natAbs < 2 ^ p) && decide (q.den ≤ 2 ^ emin)
+      let negExact := representable (1 - (if swapX then x.a else ay))
+      let slack : Rat := if negExact then 0 else c.eps / minQ ay (1 - ay)
+      check (if swapX then "C14.swap_x" else "C14.swap_y") (QB.close (64 * τ + slack) l r)
   | _ => none
 
 /-- every entry of `x` lies between the corresponding entries of `l` and `r` (±δ) -/
@@ -1028,6 +1040,66 @@ def ndClauses (c : Case) : List String :=
     (e.g. 1+3ε and 1-2ε give 1-2.5ε): that is not the maximisation's business and is not required here. -/
 def accClauses (c : Case) : Option (List String) :=
   if !(c.variant.contains "acc") || c.cls != "ok" then none else
+  -- conditional reasoning (repair 9ec2d8b): on EXACTLY well-formed operands the value(s) returned by deduce / deduce_with /
+  -- deduce2, inverse, abduce / abduce_with (and merge) are accepted by the crate's own checked constructors.  The flag is
+  -- the LAST one of the answer.  Domain sizes of the harness: results over at most 4 values (merge: 3), where the validators'
+  -- re-summation residue cannot leave the 4-ulp band.
+  if c.prop == "C04" && (c.op == "deduce" || c.op == "deduce_with" || c.op == "deduce2") then
+    let (n, m) := if c.op == "deduce2" then (c.ints.getD 0 0 * c.ints.getD 1 0, c.ints.getD 2 0)
+                  else (c.ints.getD 0 0, c.ints.getD 1 0)
+    if m > 8 then none else
+    match allSome c.inp with
+    | none => none
+    | some xs =>
+    let (bx, ux, ax) := opinionAt xs 0 n
+    let cs := condAt xs (2 * n + 1) n m
+    let fb := slice xs (2 * n + 1 + n * (m + 1)) m
+    if !(wfOpinion 0 bx ux ax && condWf 0 cs && (c.op == "deduce" || wfBaseRate 0 fb)) then none else
+    if c.flags.isEmpty then some ["C04.acc_flags_missing"] else
+    some (check "C04.result_accepted_by_constructor" (c.flags.getLast? == some true))
+  else if c.prop == "C05" && (c.op == "inverse" || c.op == "abduce" || c.op == "abduce_with") then
+    let n := c.ints.getD 0 0
+    let m := c.ints.getD 1 0
+    if n > 8 || m > 8 then none else
+    match allSome c.inp with
+    | none => none
+    | some xs =>
+    if c.op == "inverse" then
+      let cs := condAt xs 0 n m
+      let ax := slice xs (n * (m + 1)) n
+      let ay := slice xs (n * (m + 1) + n) m
+      if !(condWf 0 cs && wfBaseRate 0 ax && wfBaseRate 0 ay && ax.all (fun v => decide (0 < v))) then none else
+      if c.flags.isEmpty then some ["C05.acc_flags_missing"] else
+      some (check "C05.inverse_accepted_by_constructor" (c.flags.getLast? == some true))
+    else
+      let sb := slice xs 0 m
+      let su := xs.getD m 0
+      let cs := condAt xs (2 * m + 1) n m
+      let ax := slice xs (2 * m + 1 + n * (m + 1)) n
+      let ay := slice xs (2 * m + 1 + n * (m + 1) + n) m
+      if !(wfSimplex 0 sb su && condWf 0 cs && wfBaseRate 0 ax && ax.all (fun v => decide (0 < v))
+            && (c.op == "abduce" || wfBaseRate 0 ay)) then none else
+      if c.flags.isEmpty then some ["C05.acc_flags_missing"] else
+      some (check "C05.abduce_accepted_by_constructor" (c.flags.getLast? == some true))
+  else if c.prop == "C11" && c.op == "merge" then
+    let n1 := c.ints.getD 0 0
+    let n2 := c.ints.getD 1 0
+    let m := c.ints.getD 2 0
+    if n1 * n2 > 8 then none else
+    match allSome c.inp with
+    | none => none
+    | some xs =>
+    let c1 := condAt xs 0 n1 m
+    let c2 := condAt xs (n1 * (m + 1)) n2 m
+    let o := n1 * (m + 1) + n2 * (m + 1)
+    let ax1 := slice xs o n1
+    let ax2 := slice xs (o + n1) n2
+    let ay := slice xs (o + n1 + n2) m
+    if !(condWf 0 c1 && condWf 0 c2 && wfBaseRate 0 ax1 && wfBaseRate 0 ax2 && wfBaseRate 0 ay
+          && ax1.all (fun v => decide (0 < v)) && ax2.all (fun v => decide (0 < v)) && ay.all (fun v => decide (0 < v))) then none else
+    if c.flags.isEmpty then some ["C11.acc_flags_missing"] else
+    some (check "C11.cell_accepted_by_constructor" (c.flags.getLast? == some true))
+  else
   -- claimed for domains of at most 8 cells: after the final normalisation the re-summed masses of a 12-cell domain miss the
   -- 4-ulp band by plain rounding (sum = 1 - 2.5 eps) in about 20-60 cases per million, 8 cells: about 2 per million, fewer: none seen
   if c.ints.getD 0 0 > 8 then none else
